@@ -15,7 +15,7 @@ import fieldutil as F
 import implutil as U
 
 STATIC = ["Model/Sev.vo"]
-EXTRA_PROPS = ["RK"]
+EXTRA_PROPS = ["RK", "C02b"]
 IMPORTS = "From SSP Require Import Model.Pk Model.Lifetime Model.Bins Model.Sev."
 
 
@@ -170,8 +170,45 @@ def oracle(chk, car, args, case, out, mto, m_rem, cls):
 
 
 def full_runs(chk):
-    emf, *_ = U.mods()
+    emf, _masses, ifmr_mod, _k = U.mods()
     rng = chk.rng
+    # ---- the IFMR remnant mass never exceeds the progenitor's, for every relation the constructor accepts ------
+    nif = 60 if chk.tier == "quick" else 600
+    for r in range(nif):
+        kind = rng.choice(["brokenpowerlaw", "brokenpowerlaw", "powerlaw", "linear", "table"])
+        feh = rng.choice([-2.0, -1.0, -0.5, 0.0, rng.uniform(-2.5, 0.5)])
+        if kind == "table":
+            ikw = dict(BH_method=rng.choice(["banerjee20", "banerjee20-delayed", "cosmic-rapid", "cosmic-delayed"]))
+        elif kind == "linear":
+            ikw = dict(BH_method="linear", BH_kwargs=dict(slope=rng.choice([0.4, 0.9, 1.0, 1.1, 1.5]), scale=rng.choice([0.0, 0.2, -1.0, 3.0])))
+        elif kind == "powerlaw":
+            ikw = dict(BH_method="powerlaw", BH_kwargs=dict(exponent=rng.choice([1, 0.9, 1.1, 2]), slope=rng.choice([0.4, 0.9, 1.0, 1e-2]),
+                                                           scale=rng.choice([0.0, 0.2, 1.0])))
+        else:
+            b1 = rng.choice([20, 19, 25]); b2 = b1 + rng.choice([2, 5]); b3 = rng.choice([36, 38, 41, 45, 60])
+            ikw = dict(BH_method="brokenpowerlaw", BH_kwargs=dict(
+                m_breaks=[b1, b2, b3, rng.choice([100, 150])], exponents=[1, rng.choice([3, 3, 2.5, 1]), 1],
+                slopes=[rng.choice([1, 0.9]), rng.choice([6e-4, 5e-4, 8e-4, 0.3]), rng.choice([0.43, 0.9, 1.05])],
+                scales=[0, rng.choice([0, 0, 1.0]), rng.choice([0, 0, 5.0])]))
+        case = dict(FeH=feh, **ikw)
+        try:
+            obj = ifmr_mod.IFMR(feh, **ikw)
+        except ValueError:
+            chk.count("IFMR parameters refused by the constructor (ValueError)")
+            continue
+        except Exception as e:  # noqa
+            chk.fail("IFMR construction either succeeds or raises ValueError", case, dict(error=type(e).__name__, msg=str(e)[:100]))
+            continue
+        chk.count("IFMR relations accepted and scanned")
+        chk.note_distinct(case)
+        top = min(float(obj.BH_mi.upper), 150.0)
+        grid = np.r_[np.linspace(0.7, top, 3001), [float(obj.WD_mi.upper), float(obj.BH_mi.lower), top]]
+        grid = grid[grid <= top]
+        mf = np.asarray(obj.predict(grid), dtype=float)
+        bad = np.flatnonzero(mf > grid * (1 + 1e-12))
+        if bad.size:
+            i = int(bad[np.argmax((mf - grid)[bad])])
+            chk.fail("the IFMR remnant mass never exceeds the progenitor's mass", case, dict(m=float(grid[i]), m_rem=float(mf[i]), n_bad=int(bad.size)))
     nrun = 3 if chk.tier == "quick" else 20
     for r in range(nrun):
         kw = dict(m_breaks=[0.1, 0.5, 1.0, 100], a_slopes=[rng.uniform(-1, 0), rng.uniform(-2, -1), rng.uniform(-3, -2)],
@@ -195,6 +232,8 @@ def full_runs(chk):
 def classify(f):
     if f["clause"] == "the derivative does not raise for a turn-off mass inside the IFMR range" and f.get("wd_peak"):
         return "wd_peak_on_upper_edge"
+    if f["clause"] == "the IFMR remnant mass never exceeds the progenitor's mass" and f["input"].get("BH_method") in ("linear", "powerlaw"):
+        return "unbounded_bh_segment_upper_end_unchecked"
     return None
 
 
